@@ -265,6 +265,13 @@ impl std::fmt::Display for Source {
     }
 }
 
+/// Read a relationship field of a control file. Substitution variables
+/// (`${misc:Depends}`) are part of such fields; syntax errors are kept in the
+/// tree rather than making the accessor panic.
+fn parse_relations(s: &str) -> Relations {
+    Relations::parse_relaxed(s, true).0
+}
+
 impl Source {
     /// The name of the source package.
     pub fn name(&self) -> Option<String> {
@@ -342,7 +349,7 @@ impl Source {
 
     /// The build dependencies of the package.
     pub fn build_depends(&self) -> Option<Relations> {
-        self.0.get("Build-Depends").map(|s| s.parse().unwrap())
+        self.0.get("Build-Depends").map(|s| parse_relations(&s))
     }
 
     /// Set the Build-Depends field
@@ -354,31 +361,31 @@ impl Source {
     pub fn build_depends_indep(&self) -> Option<Relations> {
         self.0
             .get("Build-Depends-Indep")
-            .map(|s| s.parse().unwrap())
+            .map(|s| parse_relations(&s))
     }
 
     /// Return the Build-Depends-Arch field
     pub fn build_depends_arch(&self) -> Option<Relations> {
-        self.0.get("Build-Depends-Arch").map(|s| s.parse().unwrap())
+        self.0.get("Build-Depends-Arch").map(|s| parse_relations(&s))
     }
 
     /// The build conflicts of the package.
     pub fn build_conflicts(&self) -> Option<Relations> {
-        self.0.get("Build-Conflicts").map(|s| s.parse().unwrap())
+        self.0.get("Build-Conflicts").map(|s| parse_relations(&s))
     }
 
     /// Return the Build-Conflicts-Indep field
     pub fn build_conflicts_indep(&self) -> Option<Relations> {
         self.0
             .get("Build-Conflicts-Indep")
-            .map(|s| s.parse().unwrap())
+            .map(|s| parse_relations(&s))
     }
 
     /// Return the Build-Conflicts-Arch field
     pub fn build_conflicts_arch(&self) -> Option<Relations> {
         self.0
             .get("Build-Conflicts-Arch")
-            .map(|s| s.parse().unwrap())
+            .map(|s| parse_relations(&s))
     }
 
     /// Return the standards version
@@ -727,7 +734,7 @@ impl Binary {
 
     /// The dependencies of the package.
     pub fn depends(&self) -> Option<Relations> {
-        self.0.get("Depends").map(|s| s.parse().unwrap())
+        self.0.get("Depends").map(|s| parse_relations(&s))
     }
 
     /// Set the Depends field
@@ -741,7 +748,7 @@ impl Binary {
 
     /// The package that this package recommends
     pub fn recommends(&self) -> Option<Relations> {
-        self.0.get("Recommends").map(|s| s.parse().unwrap())
+        self.0.get("Recommends").map(|s| parse_relations(&s))
     }
 
     /// Set the Recommends field
@@ -755,7 +762,7 @@ impl Binary {
 
     /// Packages that this package suggests
     pub fn suggests(&self) -> Option<Relations> {
-        self.0.get("Suggests").map(|s| s.parse().unwrap())
+        self.0.get("Suggests").map(|s| parse_relations(&s))
     }
 
     /// Set the Suggests field
@@ -769,7 +776,7 @@ impl Binary {
 
     /// The package that this package enhances
     pub fn enhances(&self) -> Option<Relations> {
-        self.0.get("Enhances").map(|s| s.parse().unwrap())
+        self.0.get("Enhances").map(|s| parse_relations(&s))
     }
 
     /// Set the Enhances field
@@ -783,7 +790,7 @@ impl Binary {
 
     /// The package that this package pre-depends on
     pub fn pre_depends(&self) -> Option<Relations> {
-        self.0.get("Pre-Depends").map(|s| s.parse().unwrap())
+        self.0.get("Pre-Depends").map(|s| parse_relations(&s))
     }
 
     /// Set the Pre-Depends field
@@ -797,7 +804,7 @@ impl Binary {
 
     /// The package that this package breaks
     pub fn breaks(&self) -> Option<Relations> {
-        self.0.get("Breaks").map(|s| s.parse().unwrap())
+        self.0.get("Breaks").map(|s| parse_relations(&s))
     }
 
     /// Set the Breaks field
@@ -811,7 +818,7 @@ impl Binary {
 
     /// The package that this package conflicts with
     pub fn conflicts(&self) -> Option<Relations> {
-        self.0.get("Conflicts").map(|s| s.parse().unwrap())
+        self.0.get("Conflicts").map(|s| parse_relations(&s))
     }
 
     /// Set the Conflicts field
@@ -825,7 +832,7 @@ impl Binary {
 
     /// The package that this package replaces
     pub fn replaces(&self) -> Option<Relations> {
-        self.0.get("Replaces").map(|s| s.parse().unwrap())
+        self.0.get("Replaces").map(|s| parse_relations(&s))
     }
 
     /// Set the Replaces field
@@ -839,7 +846,7 @@ impl Binary {
 
     /// Return the Provides field
     pub fn provides(&self) -> Option<Relations> {
-        self.0.get("Provides").map(|s| s.parse().unwrap())
+        self.0.get("Provides").map(|s| parse_relations(&s))
     }
 
     /// Set the Provides field
@@ -853,7 +860,7 @@ impl Binary {
 
     /// Return the Built-Using field
     pub fn built_using(&self) -> Option<Relations> {
-        self.0.get("Built-Using").map(|s| s.parse().unwrap())
+        self.0.get("Built-Using").map(|s| parse_relations(&s))
     }
 
     /// Set the Built-Using field
